@@ -140,6 +140,8 @@ def w_krylov(ctx, rng, idx):
     with probe.oracle():
         x0 = gen.rand_tt(rng, dims, [1] * d, gen.max_ranks(dims, [1] * d), True if cplx else bool(rng.integers(0, 2)))
         x0 = (1.0 / x0.norm()) * x0
+        if rng.random() < 0.3:  # (the equation is linear: an initial state of any norm is admissible where no normalisation is asked for)
+            x0 = float(10 ** rng.uniform(-3, 3)) * x0
     h = float(rng.uniform(0.05, 1.0))
     H, h, usc = units(rng, H, h)
     ctx.describe({'op': 'krylov', 'dims': dims, 'complex': cplx, 'dimension': n, 'h': h})
